@@ -33,9 +33,11 @@ fn nix_signal(n: i32) -> nsig::Signal {
     nsig::Signal::try_from(n).unwrap()
 }
 
+const FOREIGN: i32 = 23; // SIGURG: blocked by "the application", never given to the source
+
 fn blocked_list() -> String {
     let m = SigSet::thread_get_mask().unwrap();
-    SIGS.iter().filter(|s| m.contains(nix_signal(**s))).map(|s| s.to_string()).collect::<Vec<_>>().join(",")
+    SIGS.iter().chain(std::iter::once(&FOREIGN)).filter(|s| m.contains(nix_signal(**s))).map(|s| s.to_string()).collect::<Vec<_>>().join(",")
 }
 
 fn reset_process_state() {
@@ -43,6 +45,7 @@ fn reset_process_state() {
     for s in SIGS {
         all.add(nix_signal(s));
     }
+    all.add(nix_signal(FOREIGN));
     // whatever is still pending goes to the counting handlers now
     all.thread_unblock().unwrap();
     for h in &HANDLED {
@@ -97,6 +100,11 @@ fn run_case(ops: &[String], out: &mut impl Write) {
             }
             "dispatch" => {
                 el.dispatch(Some(Duration::ZERO), &mut ()).unwrap();
+            }
+            "appblock" => {
+                let mut m = SigSet::empty();
+                m.add(nix_signal(FOREIGN));
+                m.thread_block().unwrap();
             }
             _ => {}
         }
